@@ -27,14 +27,23 @@ from harness.props import c20_cyc as CY
 
 PROP = "C20"
 LEAN_MODULES = ["LunaVerif.Props.C20", "LunaVerif.Lemmas.C20CycAbs", "LunaVerif.Lemmas.C20CycInv",
-                "LunaVerif.Lemmas.C20CycRefine", "LunaVerif.Lemmas.C20CycMain", "LunaVerif.Lemmas.C20CycEvent"]
+                "LunaVerif.Lemmas.C20CycRefine", "LunaVerif.Lemmas.C20CycMain", "LunaVerif.Lemmas.C20CycEvent",
+                # envOk discharged: slot contract, contract => envOk, endpoint models keep it, closed device
+                "LunaVerif.Lemmas.C20Contract", "LunaVerif.Lemmas.C20EnvOk", "LunaVerif.Lemmas.C20Endpoints",
+                "LunaVerif.Lemmas.C20Device"]
 DRIVER = "Driver/C20.lean"
 REQUIRED_THEOREMS = ["mux_single_source", "generator_idle_unless_stream_valid", "handshake_idle_unless_requested",
                      "every_response_is_handshake_or_crc_valid_data", "response_only_after_addressed_token_or_data",
                      "at_most_one_transmitter_per_response",
                      # cycle-level composition (Model/Device/DevCyc.lean)
                      "tx_never_during_rx", "tx_only_in_response_window", "transmitters_exclusive",
-                     "pulse_only_after_delay", "inv_step", "skel_step", "handshake_response_wire"]
+                     "pulse_only_after_delay", "inv_step", "skel_step", "handshake_response_wire",
+                     # endpoint side (Lemmas/C20Contract|EnvOk|Endpoints|Device.lean)
+                     "merge_ok", "mergeAll_ok", "slot_envOk", "slot_link", "assumptions_of_slot",
+                     "inxfer_requests_only_after_pulse", "inxfer_no_handshake_and_data_together",
+                     "signalin_requests_only_after_pulse", "streamout_requests_only_after_pulse",
+                     "good_step", "envOk_of_endpoints", "closed_tx_never_during_rx", "closed_transmitters_exclusive",
+                     "closed_tx_only_in_response_window"]
 RULE = ("cases = 'mux' (number of inputs x random valid/data patterns, one-hot and overlapping) and 'full' (descriptor set, "
         "endpoint set {bulk IN, bulk OUT, status}, extra handlers) x adaptive LegalHost script (control transfers, bulk IN "
         "with lost/corrupted handshakes and retries, bulk OUT with retransmissions / overflow / PING, status polls, "
@@ -51,20 +60,37 @@ ASSUMPTIONS = dev_ctl.ASSUMPTIONS + [
     "an IN/PING token accepted by the token detector or of a data packet with a good CRC16 until the device's answer has ended, "
     "or for T+1 = 17 cycles if no answer starts) and rx_valid only while rx_active; envOk = endpoint discipline E0-E4 of "
     "Model/Device/DevCyc.lean with L = 8; speed constant (FULL); delay + L + 2 < T",
+    "closed device (envOk_of_endpoints, closed_tx_never_during_rx): hostOk as above; the bulk IN and the status endpoint have "
+    "different endpoint numbers; restHolds = the control endpoint (and anything else on the multiplexer) keeps the slot "
+    "contract of Lemmas/C20Contract.lean w.r.t. the pulses not addressed to the bulk IN / bulk OUT / status endpoint, and the "
+    "reset sequencer does not transmit; handshakes_in, the user side of the streams, the device address and the "
+    "halt-clear strobe are arbitrary",
 ]
 PARTIAL = ("Proved: the transaction-level theorems for every state and event of the event-level model (tied to the real device "
            "event by event), and at the cycle level 'tx_valid implies not rx_active', 'tx_valid only inside a response window', "
            "'the two transmitters are never valid together' and the pulse timing for the composition token detector + receiver + "
            "timers + CRC + handshake generator + data generator + UTMI multiplexer as wired in device.py (tied to the real "
            "USBDevice cycle by cycle, including the evaluation of the theorem's host and endpoint assumptions on every sampled "
-           "cycle), with the endpoint logic as an assumed environment. NOT proved: (a) that the real endpoints satisfy the "
-           "environment discipline envOk for ALL histories (requests only at / at most L+1 cycles after a ready_for_response "
-           "pulse, one per pulse, no stream underrun, timer restart only in the cycle after a reception) - it is checked on "
-           "every co-simulated cycle instead, and holds by inspection of the C11/C13/C17 endpoint FSMs, see notes/C20.md; "
-           "(b) the refinement from cycles to events beyond the handshake-response case (handshake_response_wire: a handshake "
-           "request yields exactly the wire image of the event-level Resp.hs); data responses and the endpoints' choice of the "
-           "handshake are tied by the event-level co-simulation and the cycle monitor only; (c) high speed, where the setup "
-           "decoder ACKs without waiting for the timer (the composition is co-simulated at 12 MHz full speed only).")
+           "cycle). The endpoint discipline envOk is now PROVED, for all histories, for the packet layer closed with the "
+           "cycle-level models of USBStreamInEndpoint/USBInTransferManager (C11), USBStreamOutEndpoint (C13) and "
+           "USBSignalInEndpoint (C17) through the endpoint multiplexer's OR (envOk_of_endpoints, closed_tx_never_during_rx; each "
+           "endpoint model keeps a per-endpoint slot contract for arbitrary inputs, the contract is closed under the "
+           "multiplexer's merge, and contract + packet-layer invariant imply envOk). NOT proved: (a) the CONTROL endpoint's "
+           "share of envOk: the control endpoint (setup decoder + request handlers + descriptor/serializer streams) enters the "
+           "closed device as the 'rest slot', an arbitrary driver ASSUMED to keep the same slot contract (restHolds: request "
+           "only at / at most L+1 cycles after a ready_for_response pulse not addressed to the three modelled endpoints, one "
+           "per pulse, never handshake + data, tx.valid held until last is taken, first/last only with valid, timer.start only "
+           "in the cycle after a reception) and the reset sequencer is assumed silent; for the control endpoint this is still "
+           "checked on every co-simulated cycle through envOk only (its cycle model C07 abstracts the setup decoder, descriptor "
+           "handler and serializer as inputs, so the contract would need those three models composed in; the control "
+           "endpoint also does NOT keep the contract for arbitrary inputs - a new SETUP in mid-transmission cuts its stream - "
+           "so its proof needs the packet layer's 'no reception while answering' fed back); the closed-loop WIRING of the "
+           "endpoint models (Lemmas/C20Device.lean, read off stream.py/status.py/endpoint.py) is not itself co-simulated - each "
+           "endpoint model and the packet layer are, separately; (b) the refinement from cycles to events beyond the "
+           "handshake-response case (handshake_response_wire: a handshake request yields exactly the wire image of the "
+           "event-level Resp.hs); data responses and the endpoints' choice of the handshake are tied by the event-level "
+           "co-simulation and the cycle monitor only; (c) high speed, where the setup decoder ACKs without waiting for the "
+           "timer (the composition is co-simulated at 12 MHz full speed only).")
 
 FULL_EPS = [["in", 1, 64], ["out", 2, 64], ["sig", 3, 16]]
 
